@@ -8,7 +8,7 @@ From Coq Require Import List NArith Bool Arith.
 From Coq Require Strings.String.
 Import Coq.Strings.String.StringSyntax.
 From Acg Require Import Base.Outcome Base.Str Model.Flow Model.Linear Model.LinearCheck
-  Proofs.LinearSem Proofs.LinearRaw Proofs.LinearCheck Proofs.LinearMain Proofs.LinearPasses Proofs.LinearTargets.
+  Proofs.LinearSem Proofs.LinearRaw Proofs.LinearCheck Proofs.LinearMain Proofs.LinearPasses Proofs.LinearTargets Proofs.LinearPos Proofs.LinearFull.
 Import ListNotations.
 Open Scope nat_scope.
 
@@ -16,36 +16,57 @@ Open Scope nat_scope.
     are — from some number of machine steps on, and for ever — exactly the first [k]
     events of the structured flow under the oracle [orc]. Events are commands,
     condition evaluations with their outcome, yields, and the final [EDone]; the
-    machine's [EStuck] (C++ [default: throw]) never matches a structured event.
+    machine's [EStuck] (C++ [default: throw]) never matches a structured event. *)
 
-    FULL STATEMENT (kept visible; not yet proved in this generality):
+(** FULL: for every well-formed flow and every sequence of condition outcomes, running
+    the subroutines returned by [linearize_to_subroutines] as the generated C++ state
+    machine ([run_lin]: [switch] dispatch on head labels, fall-through, yield = state
+    of the next case, start state 0) emits the same commands, condition evaluations,
+    yields and termination as the structured flow.
+    Proof: raw linearisation (simulation relation [matches]) composed with one
+    simulation per pass — [_remove_redundant_labels_in_place] ([simA]), the first
+    filter, main loop incl. trailing block, second filter and re-wiring of
+    [_remove_noops_in_place] ([simB1], [simB2]), [_fix_labels_in_place] ([simC]),
+    [_split_in_subroutines] + C++ dispatch ([simD]) — all instances of the single
+    simulation lemma of [Proofs/LinearSem.v]. *)
+Theorem C26_linearize_correct : forall f subs orc, wf_flow f = true ->
+  linearize_to_subroutines f = Ok subs ->
+  same_traces (fun n => run_lin n subs orc) f orc.
+Proof. exact linearize_correct. Qed.
+Print Assumptions C26_linearize_correct.
 
-      Theorem C26_linearize_correct : forall f subs orc, wf_flow f = true ->
-        linearize_to_subroutines f = Ok subs ->
-        same_traces (fun n => run_lin n subs orc) f orc.
-
-    What is proved for ALL flows and ALL oracles (besides the structural theorems
-    [C26_subroutine_shape], [C26_labels_consecutive], [C26_targets_exist], which are full):
-    (1) the raw linearisation ([_linearize_control_flow]) — [C26_linearize_correct_raw_partial];
-    (2) the clean-up ([_compress_in_place], [_fix_labels_in_place],
-        [_split_in_subroutines], C++ dispatch) under the decidable hypothesis that the
-        validator accepts the output — [C26_linearize_correct_partial]. The validator is
-        proved sound ([C26_validator_sound]); that it accepts the output for EVERY flow
-        is not proved, it is evaluated inside Coq for every flow of the correspondence
-        stream (on the implementation's own output). *)
-
-Theorem C26_linearize_correct_raw_partial : forall f orc, wf_flow f = true ->
+(** Stage 1 on its own: the raw linearisation ([_linearize_control_flow]) run as flat
+    labelled code. *)
+Theorem C26_linearize_raw_correct : forall f orc, wf_flow f = true ->
   same_traces
     (fun n => fst (fst (lin_run (flat_machine (linearize_control_flow f)) orc n (LRun 0) 0)))
     f orc.
 Proof. exact raw_same_traces. Qed.
-Print Assumptions C26_linearize_correct_raw_partial.
+Print Assumptions C26_linearize_raw_correct.
 
-Theorem C26_linearize_correct_partial : forall f subs orc, wf_flow f = true -> subs <> [] ->
+(** The clean-up as a whole, on ANY labelled code with pairwise distinct labels whose
+    targets are labels (not only on raw linearisations): compression and label fixing
+    preserve every run. *)
+Theorem C26_compress_preserves : forall c out, compress c = Ok out ->
+  NoDup (labels c) -> targets_in_labels c ->
+  simulates (flat_machine c) (LRun 0) (flat_machine out) (LRun 0).
+Proof. exact simAB. Qed.
+Print Assumptions C26_compress_preserves.
+
+Theorem C26_fix_labels_preserves : forall c out, fix_labels c = Ok out ->
+  NoDup (labels c) -> targets_in_labels c ->
+  simulates (flat_machine c) (LRun 0) (flat_machine out) (LRun 0).
+Proof. exact simC. Qed.
+Print Assumptions C26_fix_labels_preserves.
+
+(** Cross-check used by the harness (translation validation of the implementation's
+    own output): whatever subroutines are accepted by the executable validator are
+    trace-equivalent to the flow. *)
+Theorem C26_validated_correct : forall f subs orc, wf_flow f = true -> subs <> [] ->
   validate f subs = true ->
   same_traces (fun n => run_lin n subs orc) f orc.
 Proof. exact validated_same_traces. Qed.
-Print Assumptions C26_linearize_correct_partial.
+Print Assumptions C26_validated_correct.
 
 (** The empty flow: [linearize_to_subroutines [] = Ok []] and the consumer
     ([generate_execute_body]) emits no state machine; both sides just end. *)
